@@ -156,7 +156,7 @@ def backend_runs(r, quick):
 
 
 def run():
-    chk = Check("C01", props_modules=["GFO.Props.C01", "GFO.Props.LocalRuns", "GFO.Props.PopRuns", "GFO.Props.EvoRuns", "GFO.Props.PatternRuns", "GFO.Props.PowellRuns", "GFO.Props.SimplexRuns", "GFO.Props.DirectRuns", "GFO.Props.GridRuns"])
+    chk = Check("C01", props_modules=["GFO.Props.C01", "GFO.Props.LocalRuns", "GFO.Props.PopRuns", "GFO.Props.EvoRuns", "GFO.Props.PatternRuns", "GFO.Props.PowellRuns", "GFO.Props.SimplexRuns", "GFO.Props.DirectRuns", "GFO.Props.SmboPosRuns", "GFO.Props.GridRuns"])
     chk.build_and_audit()
     r = C.rng("C01")
     quick = C.tier() != "thorough"
@@ -180,5 +180,6 @@ def run():
     localgen.add_powell_to(chk, C.rng("C01-powell"), C.T(20, 200), constraint_p=0.3, nonfinite_p=0.0)
     localgen.add_simplex_to(chk, C.rng("C01-simplex"), C.T(20, 200), constraint_p=0.3, nonfinite_p=0.0)
     localgen.add_direct_to(chk, C.rng("C01-direct"), C.T(20, 200), constraint_p=0.3, nonfinite_p=0.0)
+    localgen.add_smbo_to(chk, C.rng("C01-smbo"), C.T(4, 30), constraint_p=0.3, nonfinite_p=0.0)
     scen.shutdown_manager()
     return chk.finish()
